@@ -14,5 +14,5 @@ s=s.replace(old,new,1)
 open(p,'w').write(s)
 PY
 shift 3
-PYVC_ROOT=$D python3-vt -m pyvc.dev "$@" 2>&1 | tail -12
+PYVC_ROOT=$D python3-vt -m pyvc.pdev -k 4 "$@" 2>&1 | grep -v "^  File\|^    " | tail -12
 rm -rf $D
